@@ -209,6 +209,15 @@ func suiteC13(s *Sink) {
 	m[0x1234] = "inserted"
 	m[0xA389] = "my shunt"
 	suiteC13pass(s, " mut:stringmap-edited")
+	// the table is read-only data: readers on several goroutines see what a single reader sees
+	ids := []int{0x203, 0x204, 0x300, 0xA042, 0xA053, 0xA056, 0xA05F, 0xA102, 0xA231, 0xA2FA, 0xA340, 0xA381, 0xA389, 0xA38B, 0x1234, 0xFFFF}
+	view := func(i int) string {
+		p := veproduct.Product(ids[i])
+		return fmt.Sprintf("%v|%s|%d|%s|%d|%d", p.Exists(), p.Model(), p.Type(), p.String(), p.MaxPanelVoltage(), p.MaxPanelCurrent())
+	}
+	for _, b := range concurrently(8, 3000, len(ids), view) {
+		s.Violate("PR concurrent", b, "product lookups from several goroutines disagree with the same lookups made alone: "+b)
+	}
 }
 
 func suiteC13pass(s *Sink, mut string) {
@@ -505,6 +514,23 @@ func suiteC15(rng *Rng, thorough bool, s *Sink) {
 					s.Violate(op, out, fmt.Sprintf("%s raw=0x%X: field %d decoded as set=%v, bit %d of the raw value is %v", fl.name, raw, e.idx, e.set, e.idx, raw&(1<<uint(e.idx)) != 0))
 				}
 			}
+			// the typed entry point (what a consumer of e.g. a BLE record's AlarmReason calls): the same field set
+			if td := typedDecodeStr(flv); td != out {
+				s.Violate(op, td, fmt.Sprintf("%s raw=0x%X: the typed Decode() gives {%s}, the documented field set is {%s}", fl.name, raw, td, out))
+			}
+			// ... and it stays the field set of this raw value after a caller edited a map it was given
+			if len(l) > 0 && raw%5 == 0 {
+				mutateTypedDecode(flv)
+				mf := flv.Fields()
+				for f := range mf {
+					mf[f] = !mf[f]
+					break
+				}
+				again, _ := fl.f.NewFieldList(uint(raw))
+				if a := fieldsStr(again.Fields()); a != fieldsStr(fields) || typedDecodeStr(again) != out {
+					s.Violate(op+" mut:a-caller-edited-an-earlier-decode", a, fmt.Sprintf("%s raw=0x%X: after a caller edited an earlier result the field set reads {%s} / {%s}, it was {%s}", fl.name, raw, a, typedDecodeStr(again), out))
+				}
+			}
 		}
 		// rendering through the register API, each value rendered repeatedly
 		reg, ok := regs[fl.name]
@@ -634,6 +660,35 @@ func namesExactly(rendering string, want []string) bool {
 // ---------- C12 ----------
 
 func suiteC12(s *Sink) {
+	// two passes over all ids: between them, callers trim and empty lists they were given; the second answer for every id
+	// (supported or not) must be the first one again
+	for pass := 1; pass <= 2; pass++ {
+		suiteC12pass(s, pass)
+		if pass == 1 {
+			for _, id := range []uint16{0x204, 0xA382, 0xA38A, 0xA057, 0xA054, 0xA060, 0xA232, 0xA2B2} {
+				rl, err := veregister.GetRegisterListByProduct(veproduct.Product(id))
+				if err != nil {
+					continue
+				}
+				var names []string
+				for i, r := range rl.GetRegisters() {
+					if i%3 == 0 {
+						names = append(names, r.Name())
+					}
+				}
+				rl.FilterByName(names...)
+				rl.FilterRegister(func(r veregister.Register) bool { return r.Sort()%2 == 0 })
+				rl.FilterRegister(func(veregister.Register) bool { return false })
+			}
+		}
+	}
+}
+
+func suiteC12pass(s *Sink, pass int) {
+	mut := ""
+	if pass > 1 {
+		mut = fmt.Sprintf(" mut:pass-%d-after-callers-trimmed-their-lists", pass)
+	}
 	groups := map[string][]int{}
 	var order []string
 	for id := 0; id < 65536; id++ {
@@ -649,7 +704,7 @@ func suiteC12(s *Sink) {
 		groups[sig] = append(groups[sig], id)
 		p := veproduct.Product(id)
 		// the property, directly
-		op := fmt.Sprintf("SL %d", id)
+		op := fmt.Sprintf("SL %d", id) + mut
 		if err != nil {
 			if !errors.Is(err, veregister.ErrUnsupportedType) || rl.Len() != 0 {
 				s.Violate(op, sig[:min(200, len(sig))], fmt.Sprintf("product 0x%04X: error %v with %d registers (want ErrUnsupportedType and an empty list)", id, err, rl.Len()))
@@ -698,14 +753,14 @@ func suiteC12(s *Sink) {
 	}
 	for _, sig := range order {
 		ids := groups[sig]
-		s.Line("list", fmt.Sprintf("SL %d", ids[0]), sig)
+		s.Line("list", fmt.Sprintf("SL %d", ids[0])+mut, sig)
 		for i := 0; i < len(ids); i += 500 {
 			j := min(i+500, len(ids))
 			chunk := []string{strconv.Itoa(ids[0])}
 			for _, id := range ids[i:j] {
 				chunk = append(chunk, strconv.Itoa(id))
 			}
-			s.Line("group", "SG "+strings.Join(chunk, ","), "same")
+			s.Line("group", "SG "+strings.Join(chunk, ",")+mut, "same")
 		}
 	}
 	s.Extra["distinct_lists"] = len(order)
@@ -828,6 +883,24 @@ func predOf(p string) func(r veregister.Register) bool {
 		return func(r veregister.Register) bool { return r.Writable() }
 	case "none":
 		return func(r veregister.Register) bool { return false }
+	// predicates with memory: a filter shows every element to the predicate exactly once, numbers first, then texts,
+	// enums, field lists, each in order
+	case "first":
+		k, _ := strconv.Atoi(parts[1])
+		seen := 0
+		return func(r veregister.Register) bool { seen++; return seen <= k }
+	case "dedup":
+		seen := map[string]bool{}
+		return func(r veregister.Register) bool {
+			if seen[r.Name()] {
+				return false
+			}
+			seen[r.Name()] = true
+			return true
+		}
+	case "alt":
+		keep := false
+		return func(r veregister.Register) bool { keep = !keep; return keep }
 	}
 	return func(r veregister.Register) bool { return true }
 }
@@ -973,10 +1046,11 @@ func runRegOps(pool []poolItem, ops []string) (string, []string) {
 		case "f":
 			p := predOf(kv[1])
 			rl.FilterRegister(p)
+			pr := predOf(kv[1]) // the reference's own instance of the predicate (it may have memory)
 			for k := 1; k <= 4; k++ {
 				var keep []poolItem
 				for _, it := range ref[k] {
-					if p(it.reg()) {
+					if pr(it.reg()) {
 						keep = append(keep, it)
 					}
 				}
@@ -1093,6 +1167,7 @@ func suiteC16(rng *Rng, thorough bool, s *Sink) {
 		"f=kind:1", "f=sortpar:0", "n=ProductId", "n=" + pool[firstOfKind(2, 0)].reg().Name() + ",Nope",
 		"k", "s=1.-9223372036854775808.lo", "s=2.9223372036854775807.hi", "s=1.-1.m",
 		"g", fmt.Sprintf("p=%d,%d,%d@1", firstOfKind(1, 0), firstOfKind(1, 1), firstOfKind(1, 2)), "q",
+		"s=1.5.soc", "s=2.6.SOC", "n=SOC", "f=dedup", "f=first:2",
 	}
 	maxLen := 3
 	if thorough {
@@ -1120,7 +1195,9 @@ func suiteC16(rng *Rng, thorough bool, s *Sink) {
 	if thorough {
 		n = 4000
 	}
-	preds := []string{"kind:1", "kind:2", "kind:3", "kind:4", "sortpar:0", "sortpar:1", "addrlt:60000", "addrlt:300", "static", "writable", "none", "all"}
+	preds := []string{"kind:1", "kind:2", "kind:3", "kind:4", "sortpar:0", "sortpar:1", "addrlt:60000", "addrlt:300", "static", "writable", "none", "all",
+		"dedup", "alt", "first:1", "first:5", "first:40"}
+	caseNames := []string{"soc", "SOC", "Soc", "productid", "PRODUCTID", "ProductId", "serialnumber", "SerialNumber"}
 	for i := 0; i < n; i++ {
 		l := 1 + rng.Intn(40)
 		if i%10 == 0 {
@@ -1144,13 +1221,21 @@ func suiteC16(rng *Rng, thorough bool, s *Sink) {
 				seq = append(seq, "k")
 			case 11:
 				keys := []int64{math.MinInt64, math.MinInt64 + 1, -1 << 62, -1000, -1, 0, 1, 105, 1 << 62, math.MaxInt64 - 1, math.MaxInt64, int64(rng.U64())}
-				seq = append(seq, fmt.Sprintf("s=%d.%d.syn%d", 1+rng.Intn(4), keys[rng.Intn(len(keys))], rng.Intn(5)))
+				nm := fmt.Sprintf("syn%d", rng.Intn(5))
+				if rng.Intn(2) == 0 {
+					nm = caseNames[rng.Intn(len(caseNames))]
+				}
+				seq = append(seq, fmt.Sprintf("s=%d.%d.%s", 1+rng.Intn(4), keys[rng.Intn(len(keys))], nm))
 			case 0:
 				seq = append(seq, "f="+preds[rng.Intn(len(preds))])
 			case 1:
 				var names []string
 				for j := 0; j < rng.Intn(4); j++ {
-					names = append(names, pool[rng.Intn(len(pool))].reg().Name())
+					if rng.Intn(3) == 0 {
+						names = append(names, caseNames[rng.Intn(len(caseNames))])
+					} else {
+						names = append(names, pool[rng.Intn(len(pool))].reg().Name())
+					}
 				}
 				seq = append(seq, "n="+strings.Join(names, ","))
 			default:
@@ -1360,6 +1445,104 @@ func suiteC17(rng *Rng, thorough bool, s *Sink) {
 			}
 		}
 	}
+	// the building blocks: every exported Append function applied to an empty list (zero value and NewRegisterList()); the
+	// caller then sorts, overwrites and truncates what it got in place; the next caller gets the original data
+	appends := map[string]func(*veregister.RegisterList){
+		"AppendBmv": veregister.AppendBmv, "AppendBmvProduct": veregister.AppendBmvProduct, "AppendBmvMonitor": veregister.AppendBmvMonitor, "AppendBmvHistoric": veregister.AppendBmvHistoric,
+		"AppendSolar": veregister.AppendSolar, "AppendSolarProduct": veregister.AppendSolarProduct, "AppendSolarGeneric": veregister.AppendSolarGeneric, "AppendSolarSettings": veregister.AppendSolarSettings,
+		"AppendSolarChargerData": veregister.AppendSolarChargerData, "AppendSolarPanelData": veregister.AppendSolarPanelData, "AppendSolarLoadData": veregister.AppendSolarLoadData,
+		"AppendInverter": veregister.AppendInverter, "AppendInverterProduct": veregister.AppendInverterProduct, "AppendInverterGeneric": veregister.AppendInverterGeneric,
+		"AppendInverterHistory": veregister.AppendInverterHistory, "AppendInverterOperation": veregister.AppendInverterOperation, "AppendInverterAcOutControl": veregister.AppendInverterAcOutControl,
+		"AppendInverterBatteryControl": veregister.AppendInverterBatteryControl, "AppendInverterDynamicCutoff": veregister.AppendInverterDynamicCutoff,
+	}
+	var anames []string
+	for n := range appends {
+		anames = append(anames, n)
+	}
+	sort.Strings(anames)
+	clobber := func(rl *veregister.RegisterList) {
+		sort.Slice(rl.NumberRegisters, func(i, j int) bool { return rl.NumberRegisters[i].Address() > rl.NumberRegisters[j].Address() })
+		for i := range rl.NumberRegisters {
+			rl.NumberRegisters[i] = veregister.NumberRegisterStruct{}
+		}
+		for i := range rl.TextRegisters {
+			rl.TextRegisters[i] = veregister.TextRegisterStruct{}
+		}
+		for i := range rl.EnumRegisters {
+			rl.EnumRegisters[i] = veregister.EnumRegisterStruct{}
+		}
+		for i := range rl.FieldListRegisters {
+			rl.FieldListRegisters[i] = veregister.FieldListRegisterStruct{}
+		}
+		rl.NumberRegisters = rl.NumberRegisters[:0]
+	}
+	productsBefore := map[uint16]string{}
+	for _, id := range []uint16{0x203, 0xA381, 0xA056, 0xA053, 0xA05F, 0xA231} {
+		rl, _ := veregister.GetRegisterListByProduct(veproduct.Product(id))
+		productsBefore[id] = renderList(rl)
+	}
+	for _, n := range anames {
+		for variant := 0; variant < 2; variant++ {
+			var first veregister.RegisterList
+			if variant == 1 {
+				first = veregister.NewRegisterList()
+			}
+			appends[n](&first)
+			orig := renderList(first)
+			clobber(&first)
+			second := veregister.NewRegisterList()
+			appends[n](&second)
+			got := renderList(second)
+			op := fmt.Sprintf("AP %s mut:empty-list-variant-%d", n, variant)
+			s.Extra["append_blocks_rechecked"]++
+			if got != orig {
+				s.Violate(op, "", fmt.Sprintf("%s on an empty list: after the caller edited the registers it received in place, the next %s yields different registers", n, n))
+			}
+		}
+	}
+	for id, before := range productsBefore {
+		rl, _ := veregister.GetRegisterListByProduct(veproduct.Product(id))
+		if renderList(rl) != before {
+			s.Violate(fmt.Sprintf("SL %d mut:after-append-blocks-were-edited", id), "", fmt.Sprintf("register list of product 0x%04X changed after callers edited lists built with the Append functions", id))
+		}
+	}
+	// the combined view of a list: GetRegisters() results are the caller's to edit
+	for _, id := range []uint16{0xA381, 0xA05F, 0xA231} {
+		rl, _ := veregister.GetRegisterListByProduct(veproduct.Product(id))
+		view := func() string {
+			var ns []string
+			for _, r := range rl.GetRegisters() {
+				if r == nil {
+					ns = append(ns, "<nil>")
+					continue
+				}
+				ns = append(ns, fmt.Sprintf("%s#%d", r.Name(), r.Sort()))
+			}
+			return strings.Join(ns, ",")
+		}
+		orig := view()
+		for k := 0; k < 3; k++ {
+			regs := rl.GetRegisters()
+			switch k {
+			case 0:
+				for i := range regs {
+					regs[i] = regs[len(regs)-1]
+				}
+			case 1:
+				sort.Slice(regs, func(i, j int) bool { return regs[i].Name() > regs[j].Name() })
+			case 2:
+				for i := range regs {
+					regs[i] = nil
+				}
+			}
+			got := view()
+			op := fmt.Sprintf("GR %d mut:%d", id, k)
+			s.Extra["combined_views_rechecked"]++
+			if got != orig {
+				s.Violate(op, "", fmt.Sprintf("product 0x%04X: GetRegisters() differs after the caller edited an earlier GetRegisters() result in place", id))
+			}
+		}
+	}
 	// per-product register lists, each class
 	for _, id := range []uint16{0x203, 0xA381, 0xA389, 0xA056, 0xA053, 0xA05F, 0xA231, 0xA2B1, 0x0300} {
 		others := map[uint16]uint16{0x203: 0x204, 0xA381: 0xA383, 0xA389: 0xA38A, 0xA056: 0xA057, 0xA053: 0xA054, 0xA05F: 0xA060, 0xA231: 0xA232, 0xA2B1: 0xA2B2, 0x0300: 0xA042}
@@ -1428,6 +1611,37 @@ func firstKey(m map[int]string) int {
 }
 
 // mutateTypedDecode mutates the map returned by the typed Decode() of a field-list value
+// typedDecodeStr: the typed Decode() of a field list, rendered like the Fields() of suiteC15
+func typedDecodeStr(v veconst.FieldList) string {
+	m := map[int]bool{}
+	switch t := v.(type) {
+	case veconst.SolarOffReasons:
+		for k, b := range t.Decode() {
+			m[k.Idx()] = b
+		}
+	case veconst.InverterOffReasons:
+		for k, b := range t.Decode() {
+			m[k.Idx()] = b
+		}
+	case veconst.InverterWarningReasons:
+		for k, b := range t.Decode() {
+			m[k.Idx()] = b
+		}
+	default:
+		return "unknown-field-list-type"
+	}
+	ks := make([]int, 0, len(m))
+	for k := range m {
+		ks = append(ks, k)
+	}
+	sort.Ints(ks)
+	var parts []string
+	for _, k := range ks {
+		parts = append(parts, fmt.Sprintf("%d:%s", k, b01(m[k])))
+	}
+	return strings.Join(parts, ",")
+}
+
 func mutateTypedDecode(v veconst.FieldList) {
 	switch t := v.(type) {
 	case veconst.SolarOffReasons:
